@@ -35,7 +35,7 @@ CFG = dict(
     imports=["From Verif.Common Require Import Packet Ipt.", "From Verif.C40 Require Import Model Spec.",
              "Open Scope N_scope.", "Open Scope string_scope."],
     checker="check_case",
-    n=dict(quick=16, thorough=300),
+    n=dict(quick=16, thorough=192),
     shard=4,
     deps=["Common", "C08"],
     rule="both renderers (rules.NewRenderer(cfg, false|true), iptables and nftables text, ~50/50); generated rules.Config (4 mark layouts, 6 workload-prefix sets, 0-13 inbound/outbound failsafe entries with nets of either "
